@@ -178,6 +178,22 @@ Definition run_file (T : ltab) (a : attach_rule) (o : filter_override) (R : opti
   | Transform f => (on_result_found_nodes T o f excl incl nodes, reported_changes T a o f excl incl nodes)
   end.
 
+(** CodeQLLocation.from_sarif.  A SARIF region: startLine, and optionally startColumn / endLine / endColumn; a location
+    without region stands for the whole file and gets the sentinel line 0.  [None] = the start column is Python's None:
+    Result.match_location raises TypeError as soon as a node on the lines of that location is tested. *)
+Record region := mkregion { rg_sl : Z; rg_sc : option Z; rg_el : option Z; rg_ec : option Z }.
+Definition codeql_loc (d : sc_default) (file : str) (r : option region) : option loc :=
+  match r with
+  | None => Some (mkloc file (mkpos 0 (-1)) (mkpos 0 (-1)))
+  | Some r =>
+      match (match rg_sc r with Some c => Some c | None => match d with ScOne => Some 1 | ScNone => None end end) with
+      | None => None
+      | Some sc => Some (mkloc file (mkpos (rg_sl r) sc)
+                               (mkpos (match rg_el r with Some l => l | None => rg_sl r end)
+                                      (match rg_ec r with Some c => c | None => sc end)))
+      end
+  end.
+
 (** SarifResult.extract_rule_id with truncate_rule_id=True: rule_id.split(".")[-1] *)
 Fixpoint last_dotted_from (acc s : str) : str :=
   match s with
